@@ -1,6 +1,7 @@
 //! Verification harness for SwiftMTMessage: replays TLC-generated behaviours against the
 //! library built from /repo's working tree and records traces for TLC to validate.
 
+mod c04;
 mod c05;
 mod c06;
 mod c10;
@@ -31,6 +32,7 @@ fn main() {
         "envelope" => c10::run(rest),
         "amounts" => c06::run(rest),
         "fields" => c05::run(rest),
+        "rules" => c04::run(rest),
         "datetime" => c11::run(rest),
         "validate" => c13::run(rest),
         "parse1" => {
